@@ -90,7 +90,8 @@ def gen_sb(rng):
 
 # ------------------------------------------------------------------------------------------------ kinds
 class Kind:
-    name = ""
+    name = ""             # harness kind
+    label = None          # reporting key (defaults to name)
     imports = ""          # Coq modules to import
     uses_sb = False
 
@@ -114,6 +115,8 @@ class Kind:
         raise NotImplementedError
     def shape(self, x):               # histogram key
         return ""
+    def rt_ok(self, x, got):          # round-trip oracle on Go's decoded value
+        return got == [0, self.proj(x)]
 
 
 class Dataspace(Kind):
@@ -186,10 +189,148 @@ class Layout(Kind):
         return "class=%d,rank=%d,o=%d,l=%d,be=%d" % (x["class"], len(x["chunk"]), x["_sb"]["o"], x["_sb"]["l"], x["_sb"]["be"])
 
 
-KINDS = [Dataspace(), Layout()]
+def le(n, v):
+    return int(v % (1 << (8 * n))).to_bytes(n, "little")
+
+
+def rbytes(rng, n, nonzero=False):
+    return bytes(rng.randrange(1 if nonzero else 0, 256) for _ in range(n))
+
+
+def py_numeric_props(cls, size, cbf):
+    if cls == 1:
+        return bytes([cbf & 1, (size * 8) & 0xFF, 0, 8 if size == 4 else 11, 23 if size == 4 else 52, 127]) + bytes(6)
+    return bytes([cbf & 1, (size * 8) & 0xFF, 0, 0])
+
+
+def py_enc_simple_dt(cls, size, cbf):
+    """bytes of a fixed/float/string/reference datatype message (used to build nested property lists)"""
+    hdr = le(4, cls | (1 << 4) | ((cbf << 8) & 0xFFFFFFFF)) + le(4, size)
+    if cls in (0, 1):
+        return hdr + py_numeric_props(cls, size, cbf)
+    if cls == 3:
+        return hdr + b"\0"
+    return hdr
+
+
+def gen_simple_dt(rng, classes=(0, 1)):
+    cls = rng.choice(classes)
+    size = rng.choice([1, 2, 4, 8]) if cls == 0 else rng.choice([4, 8]) if cls == 1 else rng.choice([1, 7, 256])
+    cbf = rng.choice([0, 8, 1, 9, 0x20, rng.getrandbits(24)])
+    return cls, size, cbf
+
+
+def gen_compound_v3_props(rng, depth=0):
+    """well-formed version-3 member list whose member types are self-delimiting for the decoder"""
+    n = rng.choice([1, 1, 2, 3, 5])
+    out = le(4, n)
+    off = 0
+    for i in range(n):
+        name = rbytes(rng, rng.choice([1, 1, 2, 7, 8, 9, 15]), nonzero=True)
+        if depth < 2 and rng.random() < 0.2:
+            inner = gen_compound_v3_props(rng, depth + 1)
+            mt = le(4, 6 | (3 << 4)) + le(4, rng.choice([4, 12, 100])) + inner
+        else:
+            mt = py_enc_simple_dt(*gen_simple_dt(rng))
+        out += name + b"\0" + le(4, off) + mt
+        off += rng.choice([1, 4, 8])
+    return out
+
+
+class DatatypeK(Kind):
+    name = "datatype"
+    imports = "Model.CodecType"
+    CLASSES = [0, 0, 1, 3, 3, 5, 6, 6, 7]
+
+    def gen(self, rng, i):
+        cls = self.CLASSES[i % len(self.CLASSES)]
+        cbf = rng.choice([0, 1, 8, 9, 0xFF, 0x100, 0xFFFF, 0xFFFFFF, rng.getrandbits(24), rng.getrandbits(8)])
+        version = rng.choice([0, 1, 1, 2, 3, 15])
+        props = rbytes(rng, rng.choice([0, 0, 1, 4, 12]))
+        if cls == 0:
+            size = rng.choice([1, 2, 4, 8])
+        elif cls == 1:
+            size = rng.choice([4, 8])
+        elif cls == 3:
+            size = rng.choice([1, 2, 255, 256, 65535, 65536, (1 << 32) - 1, rng.getrandbits(32) or 1])
+        elif cls == 7:
+            size = rng.choice([8, 12])
+        elif cls == 5:
+            size = rng.choice([1, 16, 255, 1 << 20, (1 << 32) - 1])
+            props = rbytes(rng, rng.choice([1, 2, 7, 8, 9, 15, 16, 17, 255, 256, rng.randint(1, 40)]), nonzero=rng.random() < 0.8)
+        else:
+            size = rng.choice([1, 8, 24, 1 << 16, (1 << 32) - 1])
+            r = rng.random()
+            if r < 0.45:
+                version = 3
+                props = gen_compound_v3_props(rng)
+            elif r < 0.6:
+                version = 3
+                props = rbytes(rng, rng.choice([1, 3, 4, 5, 13, 17, 40]))
+            else:
+                version = rng.choice([1, 2, 1, 0, 15])
+                props = rbytes(rng, rng.choice([1, 8, 40, 41]))
+        return {"class": cls, "version": version, "size": size, "cbf": cbf, "props": props.hex()}
+
+    def invalid(self, rng):
+        mk = lambda c, s, p="": {"class": c, "version": 1, "size": s, "cbf": 0, "props": p}
+        return [mk(0, 0), mk(0, 3), mk(0, 16), mk(1, 2), mk(1, 1), mk(1, 16), mk(3, 0), mk(7, 4), mk(7, 16), mk(5, 4), mk(6, 4),
+                mk(10, 4), mk(8, 4), mk(2, 4), mk(4, 4), mk(11, 4), mk(5, 0, "61"), mk(6, 0, "61"), mk(9, 0, "")]
+
+    def coq(self, x):
+        return "{| dt_class := %d; dt_version := %d; dt_size := %s; dt_cbf := %s; dt_props := unhex %s |}" % (
+            x["class"], x["version"], cn(x["size"]), cn(x["cbf"]), chex(x["props"]))
+    def enc_expr(self, x):
+        return "enc_datatype " + self.coq(x)
+    def encok_expr(self, x):
+        return "encok_datatype " + self.coq(x)
+    def wf_expr(self, x):
+        return "wf_datatype " + self.coq(x)
+    def dec_expr(self, hexs, sb):
+        return "oval val_datatype (dec_datatype (unhex %s))" % chex(hexs)
+    def proj(self, x):
+        c, size, cbf = x["class"], x["size"], x["cbf"]
+        if c in (0, 1):
+            return [c, 1, size, cbf, py_numeric_props(c, size, cbf).hex()]
+        if c == 3:
+            return [c, 1, size, cbf, "00"]
+        if c == 7:
+            return [c, 1, size, cbf, ""]
+        if c == 5:
+            tag = bytes.fromhex(x["props"])
+            padded = (len(tag) + 7) // 8 * 8
+            return [c, 1, size, padded, (tag + bytes(padded - len(tag))).hex()]
+        return [c, x["version"], size, cbf, x["props"]]
+    def shape(self, x):
+        return "class=%d,v=%d,plen=%d" % (x["class"], x["version"], len(x["props"]) // 2)
+
+
+class DatatypeVlen(DatatypeK):
+    """D10: the variable-length datatype header does not round-trip"""
+    name = "datatype"
+    label = "datatype_vlen"
+
+    def gen(self, rng, i):
+        base = py_enc_simple_dt(*gen_simple_dt(rng, classes=(0, 1, 3)))
+        return {"class": 9, "version": rng.choice([0, 0, 1]), "size": 16, "cbf": rng.choice([0, 1, 0x101, rng.getrandbits(12)]), "props": base.hex()}
+    def invalid(self, rng):
+        return []
+    def wf_expr(self, x):
+        return None
+    def proj(self, x):
+        # what a repaired encoder must give back (version is the encoder's choice)
+        return [9, None, x["size"], x["cbf"], x["props"]]
+    def rt_ok(self, x, got):
+        if got[0] != 0:
+            return False
+        v = got[1]
+        return [v[0], v[2], v[3], v[4]] == [9, x["size"], x["cbf"], x["props"]]
+
+
+KINDS = [Dataspace(), Layout(), DatatypeK(), DatatypeVlen()]
 
 # kinds whose encoder/decoder pair is known not to round-trip: id of the KNOWN_FINDINGS entry
-KNOWN_ROUNDTRIP = {}
+KNOWN_ROUNDTRIP = {"datatype_vlen": "C11-vlen-datatype-header"}
 
 
 # ------------------------------------------------------------------------------------------------ malformed stream
@@ -246,6 +387,7 @@ def run(ctx):
     kf = {k["id"]: k for k in vlib.known_findings("C11")}
 
     for K in KINDS:
+        K.label = K.label or K.name
         vals = [K.gen(rng, i) for i in range(n_values)]
         inval = K.invalid(rng)
         cases = [dict(kind=K.name, val=K.go(x), sb=x.get("_sb")) for x in vals + inval]
@@ -257,20 +399,20 @@ def run(ctx):
         for vi, (x, r) in enumerate(zip(vals, res[:len(vals)])):
             hist[K.shape(x)] = hist.get(K.shape(x), 0) + 1
             if "harness_error" in r or "panic" in r:
-                raise RuntimeError("harness failure on %s: %r" % (K.name, r))
+                raise RuntimeError("harness failure on %s: %r" % (K.label, r))
             if r.get("encerr"):
-                viol.append(dict(what="%s: encoder refused / crashed on a well-formed value: %s" % (K.name, r["encerr"]),
+                viol.append(dict(what="%s: encoder refused / crashed on a well-formed value: %s" % (K.label, r["encerr"]),
                                  failing_input=dict(kind=K.name, value=K.go(x), sb=x.get("_sb")), impl=r))
                 continue
             encs.add(r["enc"])
             # gate 3: determinism
             if r["enc"] != r["enc2"]:
-                viol.append(dict(what="%s: encoding the same value twice gives different bytes" % K.name,
+                viol.append(dict(what="%s: encoding the same value twice gives different bytes" % K.label,
                                  failing_input=dict(kind=K.name, value=K.go(x), sb=x.get("_sb")), impl=r))
             # gate 2: round trip, python oracle
             want = [0, K.proj(x)]
             got = goval(r["dec"])
-            if got != want:
+            if not K.rt_ok(x, got):
                 rt_bad.append((x, r, want, got))
             # gate 1: bytes vs model, and wf must hold for every generated value
             exprs.append(("enc", "enc_agrees (%s) %s" % (K.enc_expr(x), chex(r["enc"])), (x, r)))
@@ -285,13 +427,13 @@ def run(ctx):
                 exprs.append(("encok", "Bool.eqb (%s) %s" % (K.encok_expr(x), "true" if go_ok else "false"), (x, r)))
         if rt_bad:
             x, r, want, got = rt_bad[0]
-            kid = KNOWN_ROUNDTRIP.get(K.name)
+            kid = KNOWN_ROUNDTRIP.get(K.label)
             if kid and kid in kf:
                 known.append("%s: Parse(Encode(x)) != x for %d/%d values, e.g. %s (%s)" % (
-                    K.name, len(rt_bad), len(vals), json.dumps(K.go(x))[:120], kid))
+                    K.label, len(rt_bad), len(vals), json.dumps(K.go(x))[:120], kid))
             else:
                 viol.append(dict(what="%s: decoding the encoded bytes does not give the value back (%d of %d values)" % (
-                    K.name, len(rt_bad), len(vals)),
+                    K.label, len(rt_bad), len(vals)),
                     failing_input=dict(kind=K.name, value=K.go(x), sb=x.get("_sb")),
                     encoded=r.get("enc"), decoded=got, expected=want))
         # malformed stream
@@ -311,7 +453,7 @@ def run(ctx):
         all_exprs.append((K, exprs, rt_bad))
         evaluations += len(exprs)
         distinct += len(encs)
-        cov_kinds[K.name] = dict(values=len(vals), distinct_encodings=len(encs), invalid_values=len(inval),
+        cov_kinds[K.label] = dict(values=len(vals), distinct_encodings=len(encs), invalid_values=len(inval),
                                  malformed=len(mal), malformed_outcomes=mclass, coq_checks=len(exprs),
                                  shapes=dict(sorted(hist.items(), key=lambda kv: -kv[1])[:12]), n_shapes=len(hist))
         if vals:
@@ -327,7 +469,7 @@ def run(ctx):
             while j < len(exprs) and size < 60000 and j - k < 400:
                 size += len(exprs[j][1])
                 j += 1
-            nm = "c_%s_%d" % (K.name, k)
+            nm = "c_%s_%d" % (K.label, k)
             text = (HDR % K.imports) + "Definition %s : list bool := [%s].\n" % (nm, ";\n".join(e[1] for e in exprs[k:j])) + \
                 "Definition bad_%s := Eval vm_compute in mismatches id_bool %s.\nPrint bad_%s.\n" % (nm, nm, nm)
             jobs.append((ki, k, "bad_" + nm, text))
@@ -346,22 +488,22 @@ def run(ctx):
         for what, idx in by.items():
             lab, expr, (x, r) = exprs[idx[0]]
             if what == "mal":
-                viol.append(dict(what="%s: decoder outcome on a malformed message differs from the model (%d cases)" % (K.name, len(idx)),
-                                 nofail=True, correspondence="Model dec_%s vs Go parser on malformed bytes" % K.name,
+                viol.append(dict(what="%s: decoder outcome on a malformed message differs from the model (%d cases)" % (K.label, len(idx)),
+                                 nofail=True, correspondence="Model dec_%s vs Go parser on malformed bytes" % K.label,
                                  case=x, impl=r, coq_expr=expr[:2000]))
             elif what == "encok":
-                viol.append(dict(what="%s: the encoder's argument check differs from the model (%d cases)" % (K.name, len(idx)),
-                                 nofail=True, correspondence="Model encok_%s" % K.name, case=K.go(x), impl=r, coq_expr=expr[:2000]))
+                viol.append(dict(what="%s: the encoder's argument check differs from the model (%d cases)" % (K.label, len(idx)),
+                                 nofail=True, correspondence="Model encok_%s" % K.label, case=K.go(x), impl=r, coq_expr=expr[:2000]))
             else:
-                kid = KNOWN_ROUNDTRIP.get(K.name)
+                kid = KNOWN_ROUNDTRIP.get(K.label)
                 if kid and kid in kf and what != "wf":
                     continue
-                v = dict(what="%s: implementation and Coq model disagree on %s (%d cases)" % (K.name, what, len(idx)),
+                v = dict(what="%s: implementation and Coq model disagree on %s (%d cases)" % (K.label, what, len(idx)),
                          case=dict(kind=K.name, value=K.go(x), sb=x.get("_sb")), impl=r, coq_expr=expr[:2000])
                 if not rt_bad:
                     # the Go round trip holds on every generated value (Python oracle): model != implementation only
                     v["nofail"] = True
-                    v["correspondence"] = "Model enc_%s / dec_%s vs Go; theorem C11_%s_roundtrip" % (K.name, K.name, K.name)
+                    v["correspondence"] = "Model enc_%s / dec_%s vs Go; theorem C11_%s_roundtrip" % (K.label, K.label, K.label)
                 else:
                     v["failing_input"] = dict(kind=K.name, value=K.go(rt_bad[0][0]), sb=rt_bad[0][0].get("_sb"))
                 viol.append(v)
